@@ -201,7 +201,8 @@ struct Dec {
 };
 inline Dec decode(const std::string& s, const Legal& L) {
   Dec d; size_t n = s.size();
-  auto bad = [&](const char* why, size_t at) { d.st = Dec::INVALID; d.reason = why; if (at < n && s[at] == 0) d.reason = "embedded-NUL"; return d; };
+  // (a NUL byte can never be part of a designator: it gets its own reason so that the finding has its own key)
+  auto bad = [&](const char* why, size_t) { d.st = Dec::INVALID; d.reason = s.find('\0') != std::string::npos ? "embedded-NUL" : why; return d; };
   if (n >= 3 && up(s[0]) == 'I' && up(s[1]) == 'N' && up(s[2]) == 'V') { d.st = Dec::INVMARK; return d; }
   size_t p = 0; while (p < n && isdig(s[p])) ++p;
   if (p > 2) return bad("more-than-2-zone-digits", n);
@@ -277,7 +278,19 @@ inline Split split(const std::string& s) {
 
 }}  // namespace ref::mgrs
 
+
 // =====================================================================================================================
+// Part B: geometry.
+//
+// Band of a point: latitude from the reference Gauss-Krueger reverse (ref::TM, WGS84, k0 = 0.9996).
+// Block-in-band truth, two formulations that are cross-checked by the harness:
+//   (dual)    the parallel phi = 8k is traced with the reference FORWARD map; on a strip e in [e0, e1] its northing
+//             y_phi(e) is increasing in e (asserted on samples), so a block [e0,e1] x [y0,y1) contains latitudes >= phi
+//             iff y1 > y_phi(e0) and latitudes < phi iff y0 < y_phi(e1); by continuity the block meets the band
+//             [8k, 8k+8) iff it contains latitudes >= 8k and latitudes < 8k+8.  Needs only the 9 x 5 northings
+//             y_{8k}(j * 100 km) -> used to fill the table in every process.
+//   (literal) minimum / maximum of the reference latitude over the block by boundary sampling + golden-section
+//             refinement (block_range_full) -> run per block by the harness and compared with the table.
 #ifndef REF_MGRS_NO_GEOMETRY
 #include "oracle/ref_tm.hpp"
 
@@ -290,7 +303,7 @@ static const LD UTM_K0 = 0.9996L, UPS_K0 = 0.994L;
 
 struct BandInfo {
   int band = 0;          // band of the point's latitude, [-10, 9] (C and X extended)
-  LD lat = 0;            // reference latitude (degrees), NaN when decided from the northing windows alone
+  LD lat = NAN;          // reference latitude (degrees); NaN when decided from the northing windows alone
   double edge_m = 1e30;  // ground distance (m) from the point to the nearest band edge (1e30: far, not computed)
   int other = NONE;      // the band on the other side of that edge
   bool usedq = false;
@@ -300,19 +313,52 @@ class Geo {
  public:
   TM<LD> tl; TM<q128> tq;
   LD e2;
-  LD M[10], Y[10];       // northing of the parallel 8k deg at x = 500 km and at x = 500 +- 401 km (k = 1..9)
+  LD Yedge[10][5];       // Yedge[k][j] = northing of the parallel 8k deg at easting offset j * 100 km (k = 1..9); row 0 = 0
   Geo() : tl(WGS84_A, WGS84_F, UTM_K0), tq((q128)WGS84_A, (q128)WGS84_F, (q128)UTM_K0), e2(WGS84_F * (2 - WGS84_F)) {
+    for (int j = 0; j < 5; ++j) Yedge[0][j] = 0;
     for (int k = 1; k <= 9; ++k) {
-      LD phi = 8 * k;
-      M[k] = UTM_K0 * WGS84_A * tl.meridian_unit(phi * deg<LD>());
-      // northing of the parallel at easting offset 401 km: secant iteration on the longitude difference
-      LD l0 = 3, l1 = 4, f0 = fx(phi, l0) - 401000, f1 = fx(phi, l1) - 401000;
-      for (int it = 0; it < 60 && fabsl(f1) > 1e-6L; ++it) { LD l2 = l1 - f1 * (l1 - l0) / (f1 - f0); l0 = l1; f0 = f1; l1 = l2; f1 = fx(phi, l1) - 401000; }
-      if (!(fabsl(f1) <= 1e-6L)) throw std::runtime_error("ref_mgrs: cannot locate band-edge window");
-      TM<LD>::Res r = tl.forward(phi, l1);
-      if (!r.ok || !(r.y > M[k])) throw std::runtime_error("ref_mgrs: band-edge window inconsistent");
-      Y[k] = r.y;
+      LD phi = 8 * k, lam[5];
+      lam[0] = 0; Yedge[k][0] = UTM_K0 * WGS84_A * tl.meridian_unit(phi * deg<LD>());
+      for (int j = 1; j < 5; ++j) {
+        LD target = 100000.0L * j, yv; lam[j] = solve_lambda(phi, target, yv); Yedge[k][j] = yv;
+      }
+      for (int j = 0; j < 4; ++j) {            // monotonicity of the parallel on the strip, on samples
+        LD py = Yedge[k][j], px = 100000.0L * j;
+        for (int s = 1; s <= 6; ++s) {
+          LD l = lam[j] + (lam[j + 1] - lam[j]) * s / 6;
+          TM<LD>::Res r = tl.forward(phi, l);
+          if (!r.ok) throw std::runtime_error("ref_mgrs: TM forward failed");
+          if (!(r.y > py && r.x > px)) throw std::runtime_error("ref_mgrs: parallel not monotone in easting");
+          py = r.y; px = r.x;
+        }
+        if (fabsl(py - Yedge[k][j + 1]) > 1e-9L) throw std::runtime_error("ref_mgrs: parallel end point inconsistent");
+      }
     }
+  }
+  // longitude difference (deg) at which the parallel phi has easting offset e; also its northing there
+  LD solve_lambda(LD phi, LD e, LD& y) {
+    LD c = cosl(phi * deg<LD>()), l1 = e / (UTM_K0 * WGS84_A * c) / deg<LD>(), l0 = l1 * 0.99L;
+    TM<LD>::Res r0 = fwd(phi, l0), r1 = fwd(phi, l1);
+    for (int it = 0; it < 60; ++it) {
+      if (fabsl(r1.x - e) <= 2e-11L) { y = r1.y; return l1; }
+      LD l2 = l1 - (r1.x - e) * (l1 - l0) / (r1.x - r0.x);
+      l0 = l1; r0 = r1; l1 = l2; r1 = fwd(phi, l1);
+    }
+    throw std::runtime_error("ref_mgrs: cannot locate the parallel at the requested easting");
+  }
+  // the same in binary128 (used to place test points on a band edge): northing of parallel phi at offset e
+  q128 edge_northing_q(int k, q128 e) {
+    q128 phi = 8 * k;
+    if (e == 0) return (q128)UTM_K0 * (q128)WGS84_A * tq.meridian_unit(phi * deg<q128>());
+    q128 c = cosq(phi * deg<q128>()), l1 = e / ((q128)UTM_K0 * (q128)WGS84_A * c) / deg<q128>(), l0 = l1 * 0.99Q;
+    TM<q128>::Res r0 = tq.forward(phi, l0), r1 = tq.forward(phi, l1);
+    for (int it = 0; it < 60; ++it) {
+      if (!r0.ok || !r1.ok) break;
+      if (fabsq(r1.x - e) <= 1e-18Q) return r1.y;
+      q128 l2 = l1 - (r1.x - e) * (l1 - l0) / (r1.x - r0.x);
+      l0 = l1; r0 = r1; l1 = l2; r1 = tq.forward(phi, l1);
+    }
+    throw std::runtime_error("ref_mgrs: cannot locate the band edge (binary128)");
   }
   // meridional radius of curvature (m) at latitude lat (deg): metres of ground per radian of latitude
   LD rho_mer(LD latdeg) const { LD s = sinl(latdeg * deg<LD>()), w = 1 - e2 * s * s; return WGS84_A * (1 - e2) / (w * sqrtl(w)); }
@@ -325,124 +371,130 @@ class Geo {
     if (exactkey) { auto it = memo_.find(key); if (it != memo_.end()) return it->second; }
     LD lat, dlon, g, k;
     if (!tl.reverse(e, ay, lat, dlon, g, k)) throw std::runtime_error("ref_mgrs: reference TM reverse failed (long double)");
-    if (exactkey) { if (memo_.size() > 2000000) memo_.clear(); memo_[key] = lat; }
+    ++nrev_ld;
+    if (exactkey) { if (memo_.size() > 1000000) memo_.clear(); memo_[key] = lat; }
     return lat;
   }
   q128 lat_q(q128 e, q128 ay) {
     if (ay == 0) return 0;
     q128 lat, dlon, g, k;
     if (!tq.reverse(e, ay, lat, dlon, g, k)) throw std::runtime_error("ref_mgrs: reference TM reverse failed (binary128)");
+    ++nrev_q;
     return lat;
   }
-  // longitude difference from the central meridian (deg, signed like e)
-  LD dlon_ld(LD esigned, LD ay) { LD lat, dlon, g, k; if (!tl.reverse(fabsl(esigned), ay, lat, dlon, g, k)) throw std::runtime_error("ref_mgrs: TM reverse failed"); return esigned < 0 ? -dlon : dlon; }
+  // latitude and longitude difference from the central meridian (deg), signed
+  void latlon_ld(LD esigned, LD ysigned, LD& lat, LD& dlon) {
+    LD g, k;
+    if (ysigned == 0 && esigned == 0) { lat = dlon = 0; return; }
+    if (!tl.reverse(fabsl(esigned), fabsl(ysigned), lat, dlon, g, k)) throw std::runtime_error("ref_mgrs: TM reverse failed");
+    if (esigned < 0) dlon = -dlon;
+    if (ysigned < 0) lat = -lat;
+  }
 
-  // band of the UTM point (x - 500 km = e, true signed northing y; both exact binary128 values)
+  // band of the UTM point (x - 500 km = e, true signed northing y; exact binary128 values of the doubles)
   BandInfo band_of(q128 eq, q128 yq) {
     BandInfo b; LD e = fabsl((LD)eq), y = (LD)yq, ay = fabsl(y);
     bool south = yq < 0;
+    int h = (int)(e / 100000.0L); if (h > 3) h = 3; if (h < 0) h = 0;
     int kin = 0, kbelow = 0;                  // edge whose window contains ay; number of edges certainly below ay
-    for (int k = 1; k <= 9; ++k) { if (ay > Y[k] + 1000) kbelow = k; else if (ay >= M[k] - 1000) kin = k; }
-    int ab;                                   // |band| index: 0..9 for lat in [8ab, 8ab+8)
-    if (!kin) { ab = kbelow; b.lat = NAN; }
-    else {
+    for (int k = 1; k <= 9; ++k) { if (ay > Yedge[k][h + 1] + 1) kbelow = k; else if (ay >= Yedge[k][h] - 1) kin = k; }
+    int ab;                                   // 0..9: |lat| in [8ab, 8ab+8)
+    if (!kin) {
+      ab = kbelow;
+      if (ay < 1) {                           // next to the equator: distance along the meridian
+        LD lat = lat_ld(e, ay);
+        b.lat = south ? -lat : lat; b.edge_m = (double)(lat * deg<LD>() * rho_mer(0)); b.other = south ? 0 : -1;
+      }
+    } else {
       LD lat = lat_ld(e, ay), edge = 8 * kin, dist = fabsl(lat - edge) * deg<LD>() * rho_mer(edge);
-      if (dist < 1e-4L) {                    // within 0.1 mm: decide in binary128 (accurate to ~1e-19 m)
+      bool above;                             // |lat| beyond the edge (poleward side)?
+      if (dist < 1e-4L) {                     // within 0.1 mm: decide in binary128
         q128 lq = lat_q(fabsq(eq), fabsq(yq));
-        q128 dq = (lq - edge) * deg<q128>() * (q128)rho_mer(edge);
-        lat = (LD)lq; dist = (LD)fabsq(dq); b.usedq = true;
-        ab = lq >= edge ? kin : kin - 1;
-      } else ab = lat >= edge ? kin : kin - 1;
-      b.lat = south ? -lat : lat; b.edge_m = (double)dist;
-      int oab = ab == kin ? kin - 1 : kin;
-      b.other = south ? -oab - 1 : oab;
-      // southern hemisphere: band [-8(ab+1), -8ab) contains its southern edge: |lat| == 8 kin belongs to the poleward band
-      if (south && dist == 0) { ab = kin; b.other = -(kin - 1) - 1; }
+        lat = (LD)lq; dist = (LD)(fabsq(lq - edge) * deg<q128>() * (q128)rho_mer(edge)); b.usedq = true;
+        above = south ? lq > edge : lq >= edge;      // a band contains its SOUTHERN edge
+      } else above = lat > edge;
+      ab = above ? kin : kin - 1;
+      int oab = above ? kin - 1 : kin;
+      b.lat = south ? -lat : lat; b.edge_m = (double)dist; b.other = south ? -oab - 1 : oab;
     }
     if (ab > 9) ab = 9;
     b.band = south ? -ab - 1 : ab;
-    if (!kin) {                               // the equator is the only other edge: distance along the meridian ~ |y| / k0
-      if (ay < 1) { b.edge_m = (double)(ay / UTM_K0); b.other = south ? 0 : -1; }
-    }
     return b;
   }
 
-  // ---- extreme latitudes of a northern block (col offset h = 0..3 : e in [100h, 100h+100] km; row r = 0..94)
-  struct Range { LD lo, hi; int evals; };
-  Range block_range_full(int h, int r) {      // boundary sampling (16 intervals per side) + golden-section refinement
-    const int NS = 16; LD e0 = 100000.0L * h, y0 = 100000.0L * r, w = 100000.0L; int ev = 0;
-    auto P = [&](LD t, LD& e, LD& y) {        // perimeter parameter t in [0,4)
-      int side = (int)t; LD u = t - side; if (side > 3) { side = 3; u = 1; }
-      switch (side) { case 0: e = e0 + u * w; y = y0; break; case 1: e = e0 + w; y = y0 + u * w; break;
-        case 2: e = e0 + (1 - u) * w; y = y0 + w; break; default: e = e0; y = y0 + (1 - u) * w; }
-    };
-    auto F = [&](LD t) { LD e, y; P(t, e, y); ++ev; return lat_ld(e, y); };
-    std::vector<LD> v(4 * NS);
-    int imin = 0, imax = 0;
-    for (int i = 0; i < 4 * NS; ++i) { v[i] = F((LD)i / NS); if (v[i] < v[imin]) imin = i; if (v[i] > v[imax]) imax = i; }
-    auto refine = [&](int i, int sgn) {       // extremum of sgn*F on [ (i-1)/NS, (i+1)/NS ] (perimeter is cyclic)
-      LD a = (LD)(i - 1) / NS, b = (LD)(i + 1) / NS; const LD g = 0.6180339887498949L;
-      auto W = [&](LD t) { while (t < 0) t += 4; while (t >= 4) t -= 4; return sgn * F(t); };
-      LD c = b - g * (b - a), d = a + g * (b - a), fc = W(c), fd = W(d), best = sgn * v[i];
-      for (int it = 0; it < 40 && (b - a) > 1e-9L; ++it) {
-        if (fc > fd) { b = d; d = c; fd = fc; c = b - g * (b - a); fc = W(c); } else { a = c; c = d; fc = fd; d = a + g * (b - a); fd = W(d); }
-        if (fc > best) best = fc; if (fd > best) best = fd;
-      }
-      return sgn * best;
-    };
-    Range R; R.lo = refine(imin, -1); R.hi = refine(imax, +1);
-    // interior must not beat the boundary (latitude has no interior critical point away from the pole)
-    for (int i = 1; i < 4; ++i) for (int j = 1; j < 4; ++j) { LD l = lat_ld(e0 + w * i / 4, y0 + w * j / 4); ++ev;
-      if (l < R.lo - 1e-12L || l > R.hi + 1e-12L) throw std::runtime_error("ref_mgrs: interior latitude outside the boundary extremes"); }
-    R.evals = ev; return R;
+  // ---- (dual) table
+  void fill(Legal& L) const {
+    std::memset(L.inband, 0, sizeof L.inband);
+    for (int h = 0; h < 4; ++h) for (int r = 0; r <= 94; ++r) {
+      uint8_t out[10]; classify_dual(h, r, out); put(L, h, r, out);
+    }
+    L.filled = true;
   }
-  Range block_range_corners(int h, int r) {
-    LD e0 = 100000.0L * h, y0 = 100000.0L * r, w = 100000.0L;
-    LD a = lat_ld(e0, y0), b = lat_ld(e0 + w, y0), c = lat_ld(e0, y0 + w), d = lat_ld(e0 + w, y0 + w);
-    Range R; R.lo = std::min(std::min(a, b), std::min(c, d)); R.hi = std::max(std::max(a, b), std::max(c, d)); R.evals = 4; return R;
-  }
-  // classification of a northern block against the northern bands k = 0..9 (band k = [8k, 8k+8), band 9 open above):
-  // out[k] = 0 / 1 / 2 as in Legal.  The block is [e0,e0+w] x [y0, y0+w) so its latitudes are [lo, hi) (hi not attained);
-  // only the equator is hit exactly (lo = 0 for r = 0).
-  void classify(const Range& R, int r, uint8_t out[10]) const {
-    const LD tolm = 1e-6L;
+  void classify_dual(int h, int r, uint8_t out[10]) const {
+    const LD tolm = 1e-6L; LD y0 = 100000.0L * r, y1 = y0 + 100000.0L;
     for (int k = 0; k <= 9; ++k) {
-      LD lo_b = 8 * k, hi_b = 8 * k + 8;
-      int v;
-      // needs hi > lo_b (strict: top not attained) and lo < hi_b
-      bool a = R.hi > lo_b, b = k == 9 ? true : R.lo < hi_b;
-      v = (a && b) ? 1 : 0;
-      if (k > 0 && fabsl(R.hi - lo_b) * deg<LD>() * rho_mer(lo_b) < tolm) v = 2;
-      if (k == 0 && r == 0) { /* lo == 0 exactly: in band 0 */ }
-      if (k < 9 && fabsl(R.lo - hi_b) * deg<LD>() * rho_mer(hi_b) < tolm) v = 2;
+      // latitudes >= 8k present?  (k = 0: always)       latitudes < 8k+8 present?  (k = 9: always, X is extended)
+      bool ge = k == 0 || y1 > Yedge[k][h], lt = k == 9 || y0 < Yedge[k + 1][h + 1];
+      int v = (ge && lt) ? 1 : 0;
+      if (k > 0 && fabsl(y1 - Yedge[k][h]) < tolm) v = 2;
+      if (k < 9 && fabsl(y0 - Yedge[k + 1][h + 1]) < tolm) v = 2;
       out[k] = (uint8_t)v;
     }
   }
-  // Fill the table.  full = boundary sampling for every block; otherwise corners only, with boundary sampling for the
-  // blocks whose corner latitudes come within 0.05 deg of a band edge.
-  void fill(Legal& L, bool full, int* nfull = nullptr) {
-    std::memset(L.inband, 0, sizeof L.inband);
-    int cnt = 0;
-    for (int h = 0; h < 4; ++h) for (int r = 0; r <= 94; ++r) {
-      Range R = block_range_corners(h, r);
-      bool near = false;
-      for (int k = 1; k <= 9; ++k) if (R.lo - 0.05L < 8 * k && 8 * k < R.hi + 0.05L) near = true;
-      if (full || near) { R = block_range_full(h, r); ++cnt; }
-      uint8_t out[10]; classify(R, r, out);
-      put(L, h, r, out);
-    }
-    if (nfull) *nfull = cnt;
-    L.filled = true;
-  }
   static void put(Legal& L, int h, int r, const uint8_t out[10]) {
-    int cols[2] = {5 + h, 4 - h};                         // columns 1..8: e >= 0 -> col 5+h ; mirror -> col 4-h
+    int cols[2] = {5 + h, 4 - h};                         // columns 1..8: e >= 0 -> col 5+h ; mirror image -> col 4-h
     for (int k = 0; k <= 9; ++k) for (int c : cols) {
       L.inband[k + 10][c - 1][r + 90] = out[k];            // north
       if (r <= 89) L.inband[-k - 1 + 10][c - 1][-r - 1 + 90] = out[k];   // mirror image south of the equator
     }
   }
 
-  // ---- UPS: latitude (deg, positive towards the pole of the hemisphere) and longitude (deg) by Snyder (21-39), (7-9)
+  // ---- (literal) extreme latitudes of a northern block (h = 0..3 : e in [100h, 100h+100] km; row r = 0..94)
+  struct Range { LD lo, hi; int evals; };
+  Range block_range_full(int h, int r, int NS = 8) {
+    LD e0 = 100000.0L * h, y0 = 100000.0L * r, w = 100000.0L; int ev = 0;
+    auto F = [&](LD t) {                       // perimeter parameter t in [0,4), corners at the integers
+      while (t < 0) t += 4; while (t >= 4) t -= 4;
+      int side = (int)t; LD u = t - side, e, y;
+      switch (side) { case 0: e = e0 + u * w; y = y0; break; case 1: e = e0 + w; y = y0 + u * w; break;
+        case 2: e = e0 + (1 - u) * w; y = y0 + w; break; default: e = e0; y = y0 + (1 - u) * w; }
+      ++ev; return lat_ld(e, y);
+    };
+    std::vector<LD> v(4 * NS);
+    int imin = 0, imax = 0;
+    for (int i = 0; i < 4 * NS; ++i) { v[i] = F((LD)i / NS); if (v[i] < v[imin]) imin = i; if (v[i] > v[imax]) imax = i; }
+    auto refine = [&](int i, int sgn) {        // extremum of sgn*F on [(i-1)/NS, (i+1)/NS]; the samples include the corners exactly
+      LD a = (LD)(i - 1) / NS, b = (LD)(i + 1) / NS; const LD g = 0.6180339887498949L;
+      int iters = (i % NS == 0) ? 8 : 36;
+      LD c = b - g * (b - a), d = a + g * (b - a), fc = sgn * F(c), fd = sgn * F(d), best = sgn * v[i];
+      for (int it = 0; it < iters; ++it) {
+        if (fc > fd) { b = d; d = c; fd = fc; c = b - g * (b - a); fc = sgn * F(c); } else { a = c; c = d; fc = fd; d = a + g * (b - a); fd = sgn * F(d); }
+        if (fc > best) best = fc;
+        if (fd > best) best = fd;
+      }
+      return sgn * best;
+    };
+    Range R; R.lo = refine(imin, -1); R.hi = refine(imax, +1);
+    for (int i = 1; i < 3; ++i) for (int j = 1; j < 3; ++j) {   // the interior must not beat the boundary
+      LD l = lat_ld(e0 + w * i / 3, y0 + w * j / 3); ++ev;
+      if (l < R.lo || l > R.hi) throw std::runtime_error("ref_mgrs: interior latitude outside the boundary extremes");
+    }
+    R.evals = ev; return R;
+  }
+  // literal classification: the block is [e0,e1] x [y0,y1): its latitudes fill [lo, hi) (only the equator is attained exactly)
+  void classify_literal(const Range& R, uint8_t out[10]) const {
+    const LD tolm = 1e-6L;
+    for (int k = 0; k <= 9; ++k) {
+      LD lo_b = 8 * k, hi_b = 8 * k + 8;
+      bool a = R.hi > lo_b, b = k == 9 ? true : R.lo < hi_b;
+      int v = (a && b) ? 1 : 0;
+      if (k > 0 && fabsl(R.hi - lo_b) * deg<LD>() * rho_mer(lo_b) < tolm) v = 2;
+      if (k < 9 && fabsl(R.lo - hi_b) * deg<LD>() * rho_mer(hi_b) < tolm) v = 2;
+      out[k] = (uint8_t)v;
+    }
+  }
+
+  // ---- UPS: latitude (deg, positive towards the pole of the hemisphere) and longitude (deg), Snyder (21-39), (7-9)
   void ups_reverse(bool northp, LD x, LD y, LD& lat, LD& lon) const {
     LD dx = x - 2000000, dy = y - 2000000, rho = hypotl(dx, dy), e = sqrtl(e2);
     LD t = rho * sqrtl(powl(1 + e, 1 + e) * powl(1 - e, 1 - e)) / (2 * WGS84_A * UPS_K0);
@@ -452,8 +504,10 @@ class Geo {
     lon = (rho == 0 ? 0 : (northp ? atan2l(dx, -dy) : atan2l(dx, dy))) / deg<LD>();
   }
 
+  uint64_t nrev_ld = 0, nrev_q = 0;
+
  private:
-  LD fx(LD phi, LD dl) { TM<LD>::Res r = tl.forward(phi, dl); if (!r.ok) throw std::runtime_error("ref_mgrs: TM forward failed"); return r.x; }
+  TM<LD>::Res fwd(LD phi, LD dl) { TM<LD>::Res r = tl.forward(phi, dl); if (!r.ok) throw std::runtime_error("ref_mgrs: TM forward failed"); return r; }
   std::map<std::pair<double, double>, LD> memo_;
 };
 
